@@ -256,3 +256,147 @@ def check_calc_kM(led, replay=None):
             report(led, name, func, probs, replay)
     led.solver_time('z3-feasibility', it.solver_time)
     led.extra['python_layer_paths'] = led.extra.get('python_layer_paths', 0) + n_paths
+
+
+# --------------------------------------------------------------------------
+def replay_kA_gamma():
+    from ..pyreplay import run_real
+    script = '''
+import numpy as np
+from compmech.panel import Panel
+p = Panel(a=1., b=0.5, r=2., stack=[0, 90, 90, 0], plyt=1.25e-4, laminaprop=(142.5e9, 8.7e9, 0.28, 5.1e9, 5.1e9, 5.1e9), mu=1500., m=6, n=6)
+p.calc_k0(silent=True)
+p.beta = 0.; p.gamma = 1.
+kA = p.calc_kA(silent=True).toarray()
+out = {"max_entry": float(abs(kA).max()), "max_asymmetry(kA-kA.T)": float(abs(kA-kA.T).max()), "max_skew_defect(kA+kA.T)": float(abs(kA+kA.T).max())}
+'''
+    r = run_real(script, {})
+    r['reproduced'] = bool(r.get('max_asymmetry(kA-kA.T)', 0) > 1e-9 * max(r.get('max_entry', 1), 1e-30))
+    r['input'] = 'cylindrical panel a=1,b=.5,r=2, beta=0, gamma=1: the curvature part must be symmetric'
+    return r
+
+
+def check_calc_kA(led):
+    func = PF + 'calc_kA'
+    led.function(func)
+    it, calls = mk()
+    geoms = {k: v for k, v in GEOMS.items() if k != 'kpanel'}
+    for geom, route, flow, szform, fin in itertools.product(geoms, ('beta', 'beta+gamma', 'mach'), ('x', 'y', 'X'), ('default', 'given'), (True, False)):
+        tag = '%s,%s,flow=%s,size=%s,finalize=%s' % (geom, route, flow, szform, fin)
+        holder = {}
+        extra = {'flow': flow}
+        if route in ('beta', 'beta+gamma'):
+            extra['beta'] = real('beta')
+            if route == 'beta+gamma':
+                extra['gamma'] = real('gamma')
+                extra['aeromu'] = real('aeromu')
+        else:
+            extra.update(Mach=real('Mach'), rho_air=real('rho'), V=real('V'), speed_sound=real('ainf'))
+
+        def run():
+            del calls[:]
+            p, kw, want, g = build(it, geom, 'uniform', 'none', extra)
+            skw, sw = sizes(it, szform, g, kw)
+            holder.update(kw=kw, want=want, g=g, sw=sw)
+            it.call(it.getattr(p, 'calc_k0'), [], dict(silent=True))
+            del calls[:]
+            return (p, it.call(it.getattr(p, 'calc_kA'), [], dict(skw, silent=True, finalize=fin)))
+        saved = list(it.facts)
+        if route == 'mach':
+            it.facts.append(to_z3(real('Mach')) > 1)
+            it.facts += [to_z3(real('ainf')) > 0, to_z3(real('r')) > 0]
+        res = it.explore(run)
+        it.facts[:] = saved
+        for path, out in res:
+            g, kw, want, sw = holder['g'], holder['kw'], holder['want'], holder['sw']
+            name = '%s[%s]' % (func, tag)
+            if out[0] == 'raise':
+                report(led, name + '/no-exception', func, ['raises %s%s' % (out[1].tname, tuple(str(a)[:80] for a in out[1].eargs))])
+                continue
+            p, kA = out[1]
+            probs = []
+            # expected coefficients
+            if route == 'mach':
+                M = kw['Mach']
+                from ..poly import sqrt_of
+                root = sqrt_of(M * M - 1)
+                beta = kw['rho_air'] * kw['V'] ** 2 / root
+                gamma = beta / (2 * kw['r'] * root) if 'r' in kw else P.const(0)
+                aeromu = beta / (M * kw['speed_sound']) * (M * M - 2) / (M * M - 1)
+            else:
+                beta = kw['beta']
+                gamma = kw.get('gamma', P.const(0))
+            isx = flow.lower() == 'x'
+            wrap, terms = pycheck.terms_of(kA)
+            curved = geom == 'cpanel' and isx
+            if len(terms) < 1:
+                probs.append('no kernel term')
+            else:
+                # the flow-derivative part must be completed skew-symmetrically, the curvature part symmetrically
+                flowterms = []
+                for kscale, t in terms:
+                    if not (isinstance(t, Opaque) and t.kind == 'kernel'):
+                        probs.append('unexpected term %s' % pycheck.describe(t))
+                        continue
+                    flowterms.append((kscale, t))
+                kern = flowterms[0][1] if flowterms else None
+                if kern is not None:
+                    if isx:
+                        args = dict(sw, beta=beta, gamma=gamma if curved else kern.f['args'].get('gamma'))
+                        d = pycheck.diff_kernel(kern, 'fkAx', g['model'], args, want)
+                    else:
+                        d = pycheck.diff_kernel(kern, 'fkAy', g['model'], dict(sw, beta=beta), want)
+                    probs += d
+                if fin:
+                    if curved and not (isinstance(gamma, P) and gamma.is_zero()):
+                        ok_struct = len(terms) == 2
+                        if not ok_struct:
+                            probs.append('curved panel with gamma != 0: the whole matrix (flow part AND curvature part) is completed by '
+                                         'make_skew_symmetric; the curvature part -gamma*int(w_A w_B) must be symmetric')
+                    elif wrap[:1] != ['skew-symmetrized'] and 'skew-symmetrized' not in wrap:
+                        probs.append('flow part not completed skew-symmetrically')
+                elif wrap:
+                    probs.append('matrix completed although finalize=False')
+            report(led, name, func, probs, replay=replay_kA_gamma if any('curvature part' in x for x in probs) else None,
+                   signature=('gamma-part-skewed' if any('curvature part' in x for x in probs) else None))
+    led.solver_time('z3-feasibility', it.solver_time)
+
+
+def check_calc_cA(led):
+    func = PF + 'calc_cA'
+    led.function(func)
+    it, calls = mk()
+    geoms = {k: v for k, v in GEOMS.items() if k != 'kpanel'}
+    for geom, fin in itertools.product(geoms, (True, False)):
+        tag = '%s,finalize=%s' % (geom, fin)
+        holder = {}
+
+        def run():
+            del calls[:]
+            p, kw, want, g = build(it, geom, 'uniform', 'none', {})
+            holder.update(kw=kw, want=want, g=g)
+            it.call(it.getattr(p, 'calc_k0'), [], dict(silent=True))
+            it.call(it.getattr(p, 'calc_cA'), [real('aeromu')], dict(silent=True, finalize=fin))
+            return p
+        res = it.explore(run)
+        for path, out in res:
+            g, kw, want = holder['g'], holder['kw'], holder['want']
+            name = '%s[%s]' % (func, tag)
+            if out[0] == 'raise':
+                report(led, name + '/no-exception', func, ['raises %s%s' % (out[1].tname, tuple(str(a)[:80] for a in out[1].eargs))])
+                continue
+            p = out[1]
+            cA = p.attrs.get('cA')
+            probs = []
+            wrap, terms = pycheck.terms_of(cA)
+            if fin and wrap[:1] != ['symmetrized']:
+                probs.append('damping matrix not completed symmetrically')
+            if len(terms) != 1:
+                probs.append('expected one kernel term')
+            else:
+                kscale, t = terms[0]
+                if not (isinstance(kscale, tuple) and kscale[0] == 'complex'):
+                    probs.append('damping matrix not multiplied by the imaginary unit (scale %r)' % (kscale,))
+                probs += pycheck.diff_kernel(t, 'fcA', g['model'], dict(aeromu=real('aeromu'), size=g['num'] * kw['m'] * kw['n'], row0=0, col0=0), want)
+            report(led, name, func, probs)
+    led.solver_time('z3-feasibility', it.solver_time)
